@@ -125,6 +125,12 @@ def ty_forms(job, cs):
             out.append(('text1-hand', txt1(cs), True))
         if cs >= 6000:
             out.append(('m:ss.xx', mss(cs), False))
+            out.append(('m.ss.xx', mss(cs).replace(':', '.'), False))           # the Norwegian way: dots throughout
+        if cs >= 360000:
+            h, r = divmod(cs, 360000)
+            hms = '%d:%02d:%02d.%02d' % (h, r // 6000, (r % 6000) // 100, r % 100)
+            out.append(('h:mm:ss.xx', hms, False))
+            out.append(('h.mm.ss.xx', hms.replace(':', '.'), False))
     else:
         if cs % 10 == 0:
             out.append(('text1', txt1(cs), False))
